@@ -596,6 +596,10 @@ class ModuleVistor(NodeVisitor):
         if not isinstance(obj, model.Attribute):
             return
         
+        if obj.kind is None:
+            # The attribute was created by a field of the module docstring (@type, @var).
+            obj.kind = model.DocumentableKind.VARIABLE
+
         self._setAttributeAnnotation(obj, annotation)
         
         obj.setLineNumber(lineno)
